@@ -330,9 +330,21 @@ def _identifiers(repo, rep):
     # identifier(): suffix or id(prefix)
     f = repo.func(COMP + "identifier")
     t = src(f.node.body[0])
-    rep.check("mangle(suffix or id(prefix))" in t and "'__{}_{}'.format(prefix"
-              in t, "R14.3", f.qualname, "identifier(prefix, suffix) embeds "
-              "both parts", construct="identifier", where=L.where(f))
+    fm = [n for n in ast.walk(f.node) if isinstance(n, ast.Call)
+          and isinstance(n.func, ast.Attribute) and n.func.attr == "format"
+          and isinstance(n.func.value, ast.Constant)
+          and n.func.value.value == "__{}_{}" and len(n.args) == 2]
+
+    def unwrap(e):
+        while isinstance(e, ast.Call) and src(e.func) == "mangle" and \
+                len(e.args) == 1:
+            e = e.args[0]
+        return src(e)
+    rep.check(len(fm) == 1 and unwrap(fm[0].args[0]) == "prefix" and
+              src(fm[0].args[1]) == "mangle(suffix or id(prefix))",
+              "R14.3", f.qualname, "identifier(prefix, suffix) embeds "
+              "both parts", construct="identifier", where=L.where(f),
+              detail=t)
     g = repo.func(COMP + "mangle")
     t = src(g.node.body[0])
     rep.check("RE_MANGLE.sub('_', str(string))" in t, "R14.3", g.qualname,
